@@ -235,6 +235,34 @@ def l_c13_reverse_pairs(rpm: dict[str, str], u: str, x: str):
     assert any(rpm[v] == rpm[u] and e == v + x and len(v) <= len(u) for v in rpm)
 
 
+@lemma("C13.upgrade_pairs_expand_and_compress", props=["C13"])
+def l_c13_upgrade_pairs(pm: dict[str, str], p: str, x: str):
+    """Over the contracts of upgrade_prefix_map, Converter.__init__, expand and compress: every pair of the (possibly
+    non-injective) map expands accordingly; its URIs compress under the lexicographically first CURIE prefix of the group."""
+    requires(p in pm and first_occ(p, ":"))
+    c = Converter(upgrade_prefix_map(pm))
+    assert WF(c) and c.delimiter == ":"
+    assert c.expand(p + ":" + x) == pm[p] + x
+    assert c.compress(pm[p] + x) is not None
+    r = c.get_record(p)
+    assert r is not None and r.uri_prefix == pm[p] and r.prefix <= p and r.prefix in pm and pm[r.prefix] == pm[p]
+
+
+@lemma("C13.jsonld_pairs_expand_and_compress", props=["C13"])
+def l_c13_jsonld_pairs(data: dict[str, dict[str, str]], p: str, x: str):
+    """String-valued terms: every term that is neither empty nor an @-keyword expands accordingly; the others are ignored."""
+    requires("@context" in data)
+    ctx = data["@context"]
+    requires(all(a == b or not (jl_taken(ctx, a) and jl_taken(ctx, b)) or ctx[a] != ctx[b] for a in ctx for b in ctx))
+    c = Converter.from_jsonld(data)
+    assert WF(c) and c.delimiter == ":"
+    if jl_taken(ctx, p) and first_occ(p, ":"):
+        assert c.expand(p + ":" + x) == ctx[p] + x
+        assert c.compress(ctx[p] + x) is not None
+    if p == "" or p.startswith("@"):
+        assert c.get_record(p) is None
+
+
 @lemma("C13.loader_keyword_defaults", props=["C13", "C04"], bounded_only="the contracts of the loaders name the forwarded keyword arguments; that leaving them out means delimiter=':' and strict=True is the signature of Converter.__init__, exercised here")
 def l_c13_loader_defaults(pm: dict):
     def outcome(f):
